@@ -44,6 +44,7 @@ def write(prop, tier, seed, results, harnesses, agg):
         "witnesses_skipped_inexact": agg["unvalidated"],
         "divergences": agg["divergences"],
         "inconclusive": agg["inconclusive"],
+        "counterexamples_only_at_non_binary64_reals": agg.get("real_only", []),
         "known_findings_suppressed_paths": agg["suppressed"],
         "known_findings_confirmed": agg["known_confirmed"],
         "stubs": sorted({s for h in harnesses for s in h.stubs}),
